@@ -11,6 +11,7 @@ import (
 	"sync/atomic"
 	"time"
 
+	"github.com/alpacahq/marketstore/v4/frontend"
 	"github.com/alpacahq/marketstore/v4/utils/io"
 	"github.com/alpacahq/marketstore/v4/utils/verifhook"
 	"github.com/alpacahq/marketstore/v4/verif/internal/dump"
@@ -166,6 +167,19 @@ func main() {
 					if s.ReadBack {
 						mark(fmt.Sprintf("R %d %s", s.ID, readBack(in, s)))
 					}
+				}
+			case "destroy":
+				// Destroy request for one bucket through the real handler
+				key := s.Buckets[0].Key
+				mark(fmt.Sprintf("DS %d %s", s.ID, key))
+				var resp frontend.MultiServerResponse
+				p := ms.Recover(func() {
+					in.DS.Destroy(nil, &frontend.MultiKeyRequest{Requests: []frontend.KeyRequest{{Key: key}}}, &resp)
+				})
+				if p == "" && len(resp.Responses) > 0 && resp.Responses[0].Error == "" {
+					mark(fmt.Sprintf("DA %d %s", s.ID, key))
+				} else {
+					mark(fmt.Sprintf("DE %d %s", s.ID, key))
 				}
 			case "checkpoint":
 				if h.Mode == "inline" {
